@@ -1,4 +1,5 @@
 import Obao.Model.RequestAuthz
+import Obao.Model.ControlGroup
 /-!
 C03 (last clause, at the level of `Core.Capabilities`): "the capability list reported for a path agrees with the
 operations actually permitted on it" — for a token of one namespace used in ANOTHER (a parent-namespace token
@@ -158,5 +159,59 @@ theorem core_capabilities_token_ns_cex :
   ⟨[Rule.parse (cs "team/secret/*") { Caps.none with read := true, list := true }], cs "team/", [], cs "secret/a",
    by intro r hr; simp only [List.mem_singleton] at hr; rw [hr]; exact parse_normal _ _,
    by decide, by decide, by decide⟩
+
+/-! ### "the decision is independent of the order in which policies are attached": the control group of a pattern -/
+section CGOrder
+open Obao.ControlGroup
+
+theorem ttlMerge_comm (a b : Nat) : ttlMerge a b = ttlMerge b a := by
+  unfold ttlMerge
+  split <;> split <;> omega
+
+/-- **cg_merge_order_independent.** Whether a request on the pattern is deferred for approval, for how long, whether
+the requester may approve it, and WHICH factors have to be satisfied do not depend on the order in which two stanzas
+of the pattern are merged. -/
+theorem cg_merge_order_independent (a b : Option CG) :
+    (cgMerge a b).isSome = (cgMerge b a).isSome ∧
+    (∀ x y, cgMerge a b = some x → cgMerge b a = some y →
+      x.ttl = y.ttl ∧ x.self = y.self ∧ ∀ f, f ∈ x.factors ↔ f ∈ y.factors) := by
+  cases a with
+  | none => cases b <;> simp [cgMerge]
+  | some a =>
+    cases b with
+    | none => simp [cgMerge]
+    | some b =>
+      refine ⟨by simp [cgMerge], ?_⟩
+      intro x y hx hy
+      simp only [cgMerge, Option.some.injEq] at hx hy
+      subst hx; subst hy
+      refine ⟨ttlMerge_comm _ _, Bool.and_comm _ _, ?_⟩
+      intro f
+      simp only [CG.merge, List.mem_append, List.mem_filter, Bool.not_eq_true', List.contains_eq_mem,
+        decide_eq_false_iff_not]
+      constructor
+      · rintro (h | ⟨h, _⟩)
+        · by_cases hb : f ∈ b.factors
+          · exact Or.inl hb
+          · exact Or.inr ⟨h, hb⟩
+        · exact Or.inl h
+      · rintro (h | ⟨h, _⟩)
+        · by_cases ha : f ∈ a.factors
+          · exact Or.inl ha
+          · exact Or.inr ⟨h, ha⟩
+        · exact Or.inl h
+
+/-- a control group named by ANY stanza of the pattern is enforced -/
+theorem cg_required_if_any (a b : Option CG) : (cgMerge a b).isSome = (a.isSome || b.isSome) := by
+  cases a <;> cases b <;> simp [cgMerge]
+
+/-- **finding F97 (repaired)**: with "the stanza inserted first decides" the approval requirement of policy `zzz` is
+dropped for every token that also holds a policy with a stanza for the same pattern whose name sorts first. -/
+theorem cg_first_only_order_cex :
+    ∃ a b : Option CG, (cgOfFirstOnly [a, b]).isSome ≠ (cgOfFirstOnly [b, a]).isSome ∧
+      (cgOf [a, b]).isSome = (cgOf [b, a]).isSome :=
+  ⟨some ⟨15, false, ["admin-approval"]⟩, none, by decide, by decide⟩
+
+end CGOrder
 
 end C03Core
